@@ -1424,9 +1424,11 @@ class GroupBy:
 
         # TODO: allow a target vector
         results = parallel_map(func, arg_list)
+        # func is only called on the groups that have a selected row
+        non_empty = np.array([len(arr) > 0 for arr in array_splits[0]], dtype=bool)
+        n_called = int(non_empty.sum())
         results_per_value = [
-            results[i * self.ngroups : (i + 1) * self.ngroups]
-            for i in range(len(value_list))
+            results[i * n_called : (i + 1) * n_called] for i in range(len(value_list))
         ]
         result_col_names = self._col_names_from_value_names(value_names)
 
@@ -1453,7 +1455,15 @@ class GroupBy:
             arrays = map(np.array, results_per_value)
             if transform:
                 self._unify_group_key_chunks(keep_chunked=False)
-                arrays = [arr[self.group_ikey] for arr in arrays]
+                # results are in label-sorted order and only for the groups func was called on:
+                # put them back at their group codes (null elsewhere, and for rows with a null key)
+                called_codes = np.arange(self.ngroups)[self._labels_argsort][non_empty]
+                per_code = []
+                for arr in arrays:
+                    full = np.full(self.ngroups + 1, np.nan)
+                    full[called_codes] = arr
+                    per_code.append(full)
+                arrays = [full[self.group_ikey] for full in per_code]
                 index = (
                     common_index
                     if common_index is not None
